@@ -183,7 +183,7 @@ class TheoryOracle(walkers.DagWalker):
         return theory
 
     @walkers.handles(op.RELATIONS)
-    @walkers.handles(op.BOOL_OPERATORS)
+    @walkers.handles(op.BOOL_CONNECTIVES)
     @walkers.handles(op.BV_OPERATORS)
     @walkers.handles(op.STR_OPERATORS -\
                      set([op.STR_LENGTH, op.STR_INDEXOF, op.STR_TO_INT,
@@ -197,6 +197,16 @@ class TheoryOracle(walkers.DagWalker):
         theory_out = args[0]
         for t in args[1:]:
             theory_out = theory_out.combine(t)
+        return theory_out
+
+    @walkers.handles(op.QUANTIFIERS)
+    def walk_quantifier(self, formula: FNode, args: List[Theory], **kwargs) -> Theory:
+        """Combines the theory of the body with the types of the bound variables"""
+        #pylint: disable=unused-argument
+        theory_out = args[0]
+        for var in formula.quantifier_vars():
+            var_theory = self._theory_from_type(var.symbol_type())
+            theory_out = theory_out.combine(var_theory)
         return theory_out
 
     @walkers.handles(op.REAL_CONSTANT, op.BOOL_CONSTANT)
